@@ -17,6 +17,7 @@ func reg1(name string, s func() any, f func(any)) {
 
 func init() {
 	reg0("C17Clean", HarnessC17Clean)
+	reg0("C17Long", HarnessC17Long)
 	reg1("C01Agree", SetupC01Agree, HarnessC01Agree)
 	reg1("C01Lookup", SetupC01Lookup, HarnessC01Lookup)
 	reg1("C02History", SetupC02History, HarnessC02History)
@@ -45,5 +46,6 @@ func init() {
 	reg1("C15Redact", SetupC15Redact, HarnessC15Redact)
 	reg1("C16Alloc", SetupC16Alloc, HarnessC16Alloc)
 	reg1("C09Host", SetupC09Host, HarnessC09Host)
+	reg0("C10Round", HarnessC10Round)
 	reg1("C10Parse", SetupC10Parse, HarnessC10Parse)
 }
